@@ -101,21 +101,21 @@ def escapeChars : List Char → List Char
 
 def isEscd (c : Char) : Bool := c == '"' || c == '\\'
 
-/-- loop of `destringify` (`c2mir.c:1797-1799`): a backslash is dropped when the next character is
-`\` or `"`, and the scan then continues *at that next character* -/
+/-- OLD VARIANT (before /repo f779af05): loop of `destringify` in which a backslash is dropped when
+the next character is `\` or `"`, and the scan then continues *at that next character* -/
+def destrLoopOld : List Char → List Char
+  | [] => []
+  | [c] => [c]
+  | c :: d :: rest =>
+    if c == '\\' && isEscd d then destrLoopOld (d :: rest) else c :: destrLoopOld (d :: rest)
+
+/-- loop of `destringify` (`c2mir.c:1801-1806`, since /repo f779af05): a backslash is dropped when the
+next character is `\` or `"`; that character is copied and not examined again -/
 def destrLoop : List Char → List Char
   | [] => []
   | [c] => [c]
   | c :: d :: rest =>
-    if c == '\\' && isEscd d then destrLoop (d :: rest) else c :: destrLoop (d :: rest)
-
-/-- the loop with `fixes/C09-destringify-escape-pairs.patch`: the escaped character is copied and
-skipped -/
-def destrLoopFixed : List Char → List Char
-  | [] => []
-  | [c] => [c]
-  | c :: d :: rest =>
-    if c == '\\' && isEscd d then d :: destrLoopFixed rest else c :: destrLoopFixed (d :: rest)
+    if c == '\\' && isEscd d then d :: destrLoop rest else c :: destrLoop (d :: rest)
 
 /-- spelling of one token inside the string made by `#`: `"` and `\` of string literals and
 character constants are escaped, every other token is copied -/
@@ -145,13 +145,13 @@ def stripQuotesC (r : List Char) : List Char :=
   | '"' :: rest => if rest.getLast? == some '"' then rest.dropLast else rest
   | r => if r.getLast? == some '"' then r.dropLast else r
 
-/-- `destringify` of the code (`c2mir.c:1789-1800`; used for the operand of `_Pragma`) -/
+/-- OLD VARIANT: `destringify` before /repo f779af05 -/
+def destringifyOld (r : List Char) : List Char := destrLoopOld (stripQuotesC r)
+
+/-- `destringify` of the code (`c2mir.c:1793-1807`; used for the operand of `_Pragma`) -/
 def destringifyC (r : List Char) : List Char := destrLoop (stripQuotesC r)
 
-/-- `destringify` with the candidate repair -/
-def destringifyFixed (r : List Char) : List Char := destrLoopFixed (stripQuotesC r)
-
-/-- strings on which the unrepaired `destringify` inverts `stringify`: no backslash is directly
+/-- strings on which the old `destringifyOld` inverts `stringify`: no backslash is directly
 followed by a backslash or a double quote -/
 def noEscPair : List Char → Bool
   | [] => true
